@@ -62,6 +62,9 @@ type propSpec struct {
 
 var specs = map[string]propSpec{
 	"C09": {Race: true},
+	"C05": {Binaries: true},
+	"C10": {Binaries: true},
+	"C18": {Binaries: true},
 }
 
 func spec(id string) propSpec {
@@ -153,6 +156,30 @@ func build(bd string, race bool) string {
 	return bin
 }
 
+// buildBinaries builds the real gateway (from /repo's working tree, untouched
+// dependencies, no overlay, no tag) and the real rdpgw-auth (with the pure-Go
+// PAM stand-in, because the image has no PAM headers).
+func buildBinaries(bd string) (string, string) {
+	gw := filepath.Join(bd, "rdpgw")
+	if out, err := run("/repo", goEnv(), "go", "build", "-o", gw, "./cmd/rdpgw"); err != nil {
+		fatal("building cmd/rdpgw from /repo's working tree failed: %v\n%s", err, out)
+	}
+	au := filepath.Join(bd, "rdpgw-auth")
+	os.WriteFile(filepath.Join(root, "authbuild", "go.sum"), mustRead("/repo/go.sum"), 0o644)
+	if out, err := run(filepath.Join(root, "authbuild"), goEnv(), "go", "build", "-o", au, "github.com/bolkedebruin/rdpgw/cmd/auth"); err != nil {
+		fatal("building cmd/auth failed: %v\n%s", err, out)
+	}
+	return gw, au
+}
+
+func mustRead(p string) []byte {
+	b, err := os.ReadFile(p)
+	if err != nil {
+		fatal("%v", err)
+	}
+	return b
+}
+
 func loadFindings() []finding {
 	b, err := os.ReadFile(filepath.Join(root, "known_findings.json"))
 	if err != nil {
@@ -182,6 +209,10 @@ func check(id, tier string) int {
 	os.RemoveAll(filepath.Join(bd, "out"))
 	os.MkdirAll(filepath.Join(bd, "out"), 0o755)
 	bin := build(bd, sp.Race)
+	gwBin, authBin := "", ""
+	if sp.Binaries {
+		gwBin, authBin = buildBinaries(bd)
+	}
 	budget := sp.QuickBudget
 	if tier == "thorough" {
 		budget = sp.ThoroughBudget
@@ -196,7 +227,7 @@ func check(id, tier string) int {
 			defer wg.Done()
 			of := filepath.Join(bd, "out", fmt.Sprintf("shard%d.json", i))
 			outs[i] = of
-			env := append(goEnv(), "GOMAXPROCS=1", "VERIF_BUILD_DIR="+bd)
+			env := append(goEnv(), "GOMAXPROCS=1", "VERIF_BUILD_DIR="+bd, "VERIF_RDPGW="+gwBin, "VERIF_RDPGW_AUTH="+authBin)
 			if sp.Race {
 				env = append(env, "GORACE=halt_on_error=0 exitcode=0 history_size=2 log_path="+filepath.Join(bd, "out", fmt.Sprintf("race%d", i)))
 			}
@@ -406,7 +437,8 @@ func replaySig(bin string, sp propSpec, id, rf string, k int, sig, alt string) b
 			os.Remove(f)
 		}
 	}()
-	env := append(goEnv(), "GOMAXPROCS=1")
+	bd := filepath.Join(root, ".build", id)
+	env := append(goEnv(), "GOMAXPROCS=1", "VERIF_BUILD_DIR="+bd, "VERIF_RDPGW="+filepath.Join(bd, "rdpgw"), "VERIF_RDPGW_AUTH="+filepath.Join(bd, "rdpgw-auth"))
 	if sp.Race {
 		env = append(env, "GORACE=halt_on_error=0 exitcode=0 history_size=2 log_path="+fmt.Sprintf("%s.race%d", rf, k))
 	}
